@@ -10,6 +10,7 @@ package rules
 // Nothing of /repo is executed: this evaluates condition *syntax* over an abstract domain.
 
 import (
+	"os"
 	"fmt"
 	"go/ast"
 	"go/constant"
@@ -107,6 +108,9 @@ func (ev *dtEval) atomName(base string, pos token.Pos, collecting bool) string {
 		ev.occSeen[base] = ps
 	}
 	if len(ps) <= 1 {
+		if !collecting && os.Getenv("DT_DEBUG") != "" {
+			println("DT atomName base-only", base, len(ps), int(pos))
+		}
 		return base
 	}
 	for i, p := range ps {
